@@ -17,7 +17,12 @@
   `flDiffs fl as bs = (zipWith (−) as bs).map fl` — the rounded differences `d̃ᵢ = fl (aᵢ − bᵢ)`;
   `smean`, `svar`, `ssd` — exact sample mean, variance, standard deviation;
   `meanAbs xs = Σ|x|/n`; `sqTerm xs = Σx²/((n − 1)·n)`; `welchA xs = s²/n`;
-  `welchNu as bs` — the exact effective degrees of freedom `ν` (C04 `unpaired_dof_formula`).
+  `welchNu as bs` — the exact effective degrees of freedom `ν` (C04 `unpaired_dof_formula`);
+  `clampedDof A B na nb = max (welchDof A B na nb) (min na nb − 1)` — what the model hands on at
+  exact arithmetic (C04 `unpaired_dof_clamped`);
+  `ofLists fl as bs = Unpaired.fromLists (as.map inj) (bs.map inj)` at `RR fl`;
+  `dofFl U` — the model's `Unpaired.effectiveDof` at `RR fl` on the computed `sa²/na`, `sb²/nb` and
+  the two counts (the computed Welch value, before the lower bound is applied).
 
   A. Paired.  The state built at `RR fl` is the `Arith` state of `d̃`, so C01R applies verbatim
      with `xs := d̃`; the exact statistics of `d̃` and of `d` differ by `u·Σ|d|/n` (mean) and
@@ -25,11 +30,17 @@
   B. Unpaired with a constant critical value `c`: mean difference `15`, `sa²/na + sb²/nb` `53`,
      standard error `8·√(u·W)` / `55u·W/se`, interval `17`, `1 + 3u`, `3`
      (`W = sqTerm as + sqTerm bs`).  The constants are not tight.
-  C. The effective degrees of freedom: which quantile is requested at `RR fl`; the computed
-     value is positive unless both computed standard deviations vanish (then `t_value`
-     panics, at every `fl`); `|dof_fl − ν| ≤ (255·κ + 19)·u·(ν + 2)` for both variances positive
-     and `κ ≥ Σx²/((n − 1)s²)` on both sides, `51·u·κ ≤ 1/64`; an absolute form
-     `((5/4)(2η + ρ) + 19u)·(ν + 2)` that allows one variance to vanish; `ν ≤ na + nb`.
+  C. The effective degrees of freedom. The value handed on is the computed Welch value `dofFl`
+     bounded below by the computed `fl (min (fl na) (fl nb) − 1)` (the crate's lower bound,
+     `Unpaired.clampDof`): which quantile is requested at `RR fl`; the value handed on is positive
+     at every `fl` with `u < 1/2`, and `≥ min(na, nb) − 1 ≥ 1` when `fl` is exact on the counts
+     and on `min(na, nb) − 1` — `t_value` does not panic, two constant samples included (they
+     give the degenerate interval at the rounded mean difference); `dofFl` itself is positive
+     unless both computed standard deviations vanish (then it is negative, at every `fl`);
+     `|dofFl − ν| ≤ (255·κ + 19)·u·(ν + 2)` for both variances positive and
+     `κ ≥ Σx²/((n − 1)s²)` on both sides, `51·u·κ ≤ 1/64`; an absolute form
+     `((5/4)(2η + ρ) + 19u)·(ν + 2)` that allows one variance to vanish; the same bounds for the
+     value handed on (`max` is 1-Lipschitz and `ν ≥ min(na, nb) − 1`); `ν ≤ na + nb`.
      (`ν ≥ min(na, nb) − 1 ≥ 1` is C04 `dof_pos_samples`, not repeated here.)
 -/
 import StatsCI.Lemmas.UnpairedRound
@@ -259,11 +270,11 @@ theorem unpaired_stdErr_error (hfl : ∀ x, |fl x - x| ≤ u * |x|) (hu : 0 ≤ 
   obtain ⟨h3, h4⟩ := se_bound hfl hu as bs hna hnb hs hnat
   exact ⟨_, sumS2nFl (ofLists fl as bs), _, hp, h2, h1, h3, h4⟩
 
-/-- **Unpaired interval, closed form.** With a constant critical value `c ≥ 0`, an admissible
-    probability, and the exact `sa²/na + sb²/nb` above the error `53u·W` of its computed value
-    (so that the computed degrees of freedom are positive and `t_value` does not panic),
-    `Unpaired::ci` at `RR fl` hands two bounds to the interval constructor of the kind of `conf`;
-    each differs from the exact `(x̄a − x̄b) ∓ c·se` by at most
+/-- **Unpaired interval, closed form, valid for every pair of samples.** With a constant critical
+    value `c ≥ 0` and an admissible probability, `Unpaired::ci` at `RR fl` hands two bounds to the
+    interval constructor of the kind of `conf` (the degrees of freedom handed on are at least
+    `min(na, nb) − 1 ≥ 1` by the crate's lower bound, so `t_value` does not panic — also for two
+    constant samples, where `se = 0`); each differs from the exact `(x̄a − x̄b) ∓ c·se` by at most
     `17u·(Σ|a|/na + Σ|b|/nb) + (1 + 3u)·c·8·√(u·W) + 3u·c·se`.
     The dependence of the quantile on the computed degrees of freedom is factored out: `c` is
     whatever the oracle answers (part C bounds the degrees of freedom themselves). -/
@@ -271,8 +282,7 @@ theorem unpaired_interval_error_sqrt (hfl : ∀ x, |fl x - x| ≤ u * |x|) (hu :
     (as bs : List ℝ) (hna : 2 ≤ as.length) (hnb : 2 ≤ bs.length)
     (hs : ((as.length : ℝ) + bs.length) * u ≤ 1 / 1024)
     (hnat : ∀ m : ℕ, m ≤ as.length + bs.length → fl m = m) (c : ℝ) (hc : 0 ≤ c)
-    (conf : Confidence (RR fl)) (hp : probOk conf.quantile = true)
-    (hpos : 53 * u * (sqTerm as + sqTerm bs) < welchA as + welchA bs) :
+    (conf : Confidence (RR fl)) (hp : probOk conf.quantile = true) :
     ∃ lo hi : ℝ,
       Unpaired.ci (constCrit c) conf (as.map (inj : ℝ → RR fl)) (bs.map inj) =
         intervalOfKind conf (⟨lo⟩ : RR fl) ⟨hi⟩ ∧
@@ -284,22 +294,23 @@ theorem unpaired_interval_error_sqrt (hfl : ∀ x, |fl x - x| ≤ u * |x|) (hu :
         17 * u * (meanAbs as + meanAbs bs)
           + (1 + 3 * u) * (c * (8 * Real.sqrt (u * (sqTerm as + sqTerm bs))))
           + 3 * u * (c * Real.sqrt (welchA as + welchA bs)) := by
-  have hd := dofFl_pos_lists hfl hu as bs hna hnb hs hnat hpos
+  have hd : 0 < dofClFl (ofLists fl as bs) :=
+    lt_of_lt_of_le one_pos (dofClFl_lists as bs hna hnb hnat).2.2
   have he := ciMean_fl (constCrit c) (ofLists fl as bs) conf (by rw [ofLists_a_count]; exact hna)
     (by rw [ofLists_b_count]; exact hnb) hd hp
   obtain ⟨b1, b2⟩ := unpaired_bounds_bound hfl hu as bs hna hnb hs hnat c hc
     (se_bound hfl hu as bs hna hnb hs hnat).1
   exact ⟨_, _, he, b1, b2⟩
 
-/-- **Unpaired interval, relative form.** Same hypotheses (they give `se > 0`); the error of the
-    standard error enters as `55u·W/se`:
+/-- **Unpaired interval, relative form.** For samples not both constant (`se > 0`) the error of
+    the standard error enters as `55u·W/se`:
     `17u·(Σ|a|/na + Σ|b|/nb) + (1 + 3u)·c·55u·W/se + 3u·c·se`. -/
 theorem unpaired_interval_error_rel (hfl : ∀ x, |fl x - x| ≤ u * |x|) (hu : 0 ≤ u)
     (as bs : List ℝ) (hna : 2 ≤ as.length) (hnb : 2 ≤ bs.length)
     (hs : ((as.length : ℝ) + bs.length) * u ≤ 1 / 1024)
     (hnat : ∀ m : ℕ, m ≤ as.length + bs.length → fl m = m) (c : ℝ) (hc : 0 ≤ c)
     (conf : Confidence (RR fl)) (hp : probOk conf.quantile = true)
-    (hpos : 53 * u * (sqTerm as + sqTerm bs) < welchA as + welchA bs) :
+    (hAB : 0 < welchA as + welchA bs) :
     ∃ lo hi : ℝ,
       Unpaired.ci (constCrit c) conf (as.map (inj : ℝ → RR fl)) (bs.map inj) =
         intervalOfKind conf (⟨lo⟩ : RR fl) ⟨hi⟩ ∧
@@ -313,11 +324,9 @@ theorem unpaired_interval_error_rel (hfl : ∀ x, |fl x - x| ≤ u * |x|) (hu : 
           + (1 + 3 * u) * (c * (55 * u * (sqTerm as + sqTerm bs)
               / Real.sqrt (welchA as + welchA bs)))
           + 3 * u * (c * Real.sqrt (welchA as + welchA bs)) := by
-  have hW : 0 ≤ sqTerm as + sqTerm bs :=
-    add_nonneg (sqTerm_nonneg as (by omega)) (sqTerm_nonneg bs (by omega))
-  have hAB : 0 < welchA as + welchA bs := lt_of_le_of_lt (by positivity) hpos
   have hse : 0 < Real.sqrt (welchA as + welchA bs) := Real.sqrt_pos.mpr hAB
-  have hd := dofFl_pos_lists hfl hu as bs hna hnb hs hnat hpos
+  have hd : 0 < dofClFl (ofLists fl as bs) :=
+    lt_of_lt_of_le one_pos (dofClFl_lists as bs hna hnb hnat).2.2
   have he := ciMean_fl (constCrit c) (ofLists fl as bs) conf (by rw [ofLists_a_count]; exact hna)
     (by rw [ofLists_b_count]; exact hnb) hd hp
   have hrel : |seFl (ofLists fl as bs) - Real.sqrt (welchA as + welchA bs)| ≤
@@ -331,16 +340,23 @@ theorem unpaired_interval_error_rel (hfl : ∀ x, |fl x - x| ≤ u * |x|) (hu : 
 
 /-- **What is requested, at every `fl` and for every oracle.** For any state with both counts
     `≥ 2`, `ci_mean` passes its guards with a mean difference `d`, a standard error `se` and
-    computed degrees of freedom `dof`; the request is Student's t at `dof` and the documented
-    probability when `dof` is below the (rounded) population limit `fl 100000`, the normal
-    quantile otherwise; for `dof > 0` the bounds are `fl (d ∓ fl (c·se))` with `c` the oracle's
-    answer (an inadmissible probability panics inside `inverse_cdf`); for `dof ≤ 0` below the
-    limit, `StudentsT::new(0, 1, dof).unwrap()` panics. No hypothesis on `fl` is used. -/
+    degrees of freedom `dof`. The value handed on is the computed Welch value `dofFl U` (the
+    model's `effectiveDof` on the computed `sa²/na`, `sb²/nb`) bounded below by the computed
+    `fl (min (fl na) (fl nb) − 1)` (the crate's lower bound): `dofFl U ≤ dof`, with equality
+    whenever the computed value reaches the bound. The request is Student's t at `dof` and the
+    documented probability when `dof` is below the (rounded) population limit `fl 100000`, the
+    normal quantile otherwise; for `dof > 0` the bounds are `fl (d ∓ fl (c·se))` with `c` the
+    oracle's answer (an inadmissible probability panics inside `inverse_cdf`); for `dof ≤ 0` below
+    the limit, `StudentsT::new(0, 1, dof).unwrap()` panics (this needs `fl (min (fl na) (fl nb) − 1)
+    ≤ 0`, impossible for `u < 1/2`: `dof_fl_pos_always`). No hypothesis on `fl` is used. -/
 theorem unpaired_request_fl (crit : Crit (RR fl)) (U : Unpaired (RR fl))
     (conf : Confidence (RR fl)) (ha : 2 ≤ U.a.count) (hb : 2 ≤ U.b.count) :
     ∃ d se dof : ℝ,
       (Unpaired.ciPrep U : Outcome (Err (RR fl)) (Arith.Prep (RR fl))) =
         .ok ⟨⟨d⟩, ⟨se⟩, ⟨dof⟩⟩ ∧
+      dof = max (dofFl U) (fl (min (fl U.a.count) (fl U.b.count) - 1)) ∧
+      dofFl U ≤ dof ∧
+      (fl (min (fl U.a.count) (fl U.b.count) - 1) ≤ dofFl U → dof = dofFl U) ∧
       critReq conf (⟨dof⟩ : RR fl) =
         (if dof < fl 100000 then .t ⟨dof⟩ conf.quantile else .z conf.quantile) ∧
       (0 < dof → probOk conf.quantile = true →
@@ -349,16 +365,60 @@ theorem unpaired_request_fl (crit : Crit (RR fl)) (U : Unpaired (RR fl))
           ⟨fl (d + fl ((crit (critReq conf (⟨dof⟩ : RR fl))).val * se))⟩) ∧
       (0 < dof → probOk conf.quantile = false → U.ciMean crit conf = .panic "inverse_cdf") ∧
       (dof ≤ 0 → dof < fl 100000 → U.ciMean crit conf = .panic "t_value") :=
-  ⟨diffFl U, seFl U, dofFl U, ciPrep_fl U ha hb, critReq_fl conf _,
+  ⟨diffFl U, seFl U, dofClFl U, ciPrep_fl U ha hb, dofClFl_eq U, dofFl_le_dofClFl U,
+    dofClFl_of_le U, critReq_fl conf _,
     fun hd hp => ciMean_fl crit U conf ha hb hd hp,
     fun hd hp => ciMean_fl_ppanic crit U conf ha hb hd hp,
     fun hd hl => ciMean_fl_tpanic crit U conf ha hb hd hl⟩
 
-/-- **The computed degrees of freedom are positive** for every state (built by any sequence of
+/-- **The degrees of freedom handed on are positive at every `fl` with `u < 1/2`**, for every
+    state with counts `≥ 2` (constant samples included): the computed lower bound
+    `fl (min (fl na) (fl nb) − 1)` is positive (`fl n > n/2 ≥ 1`), and `dof` is not below it;
+    `t_value` does not panic. -/
+theorem dof_fl_pos_always (hfl : ∀ x, |fl x - x| ≤ u * |x|) (hu : u < 1 / 2)
+    (U : Unpaired (RR fl)) (hna : 2 ≤ U.a.count) (hnb : 2 ≤ U.b.count) :
+    ∃ d se dof : ℝ,
+      (Unpaired.ciPrep U : Outcome (Err (RR fl)) (Arith.Prep (RR fl))) =
+        .ok ⟨⟨d⟩, ⟨se⟩, ⟨dof⟩⟩ ∧
+      0 < fl (min (fl U.a.count) (fl U.b.count) - 1) ∧
+      fl (min (fl U.a.count) (fl U.b.count) - 1) ≤ dof ∧ 0 < dof :=
+  ⟨_, _, _, ciPrep_fl U hna hnb, clampFl_pos hfl hu U hna hnb, clampFl_le_dofClFl U,
+    dofClFl_pos hfl hu U hna hnb⟩
+
+/-- **At least `min(na, nb) − 1 ≥ 1`** when `fl` is exact on the two counts and on
+    `min(na, nb) − 1` (natural numbers; no hypothesis on the error of `fl`): the value handed on
+    is `max (dofFl U) (min(na, nb) − 1)`, for every state with counts `≥ 2`, whatever the computed
+    Welch value (C04 `unpaired_dof_clamped` is the case `fl = id`). -/
+theorem dof_fl_clamped (U : Unpaired (RR fl)) (hna : 2 ≤ U.a.count) (hnb : 2 ≤ U.b.count)
+    (ha : fl U.a.count = U.a.count) (hb : fl U.b.count = U.b.count)
+    (hm : fl (min (U.a.count : ℝ) U.b.count - 1) = min (U.a.count : ℝ) U.b.count - 1) :
+    ∃ d se dof : ℝ,
+      (Unpaired.ciPrep U : Outcome (Err (RR fl)) (Arith.Prep (RR fl))) =
+        .ok ⟨⟨d⟩, ⟨se⟩, ⟨dof⟩⟩ ∧
+      dof = max (dofFl U) (min (U.a.count : ℝ) U.b.count - 1) ∧
+      min (U.a.count : ℝ) U.b.count - 1 ≤ dof ∧ 1 ≤ dof :=
+  ⟨_, _, _, ciPrep_fl U hna hnb, dofClFl_exact U ha hb hm,
+    (dofClFl_ge_of_exact U hna hnb ha hb hm).1, (dofClFl_ge_of_exact U hna hnb ha hb hm).2⟩
+
+/-- **The lower bound is 1-Lipschitz.** For every state with counts `≥ 2`, every `fl` and every
+    reference pair `A`, `B`: the value handed on differs from the exact bounded value
+    `clampedDof A B na nb = max (welchDof A B na nb) (min(na, nb) − 1)` by at most the larger of
+    the error of the computed Welch value and the error of the computed lower bound. -/
+theorem dof_clamp_lipschitz (U : Unpaired (RR fl)) (hna : 2 ≤ U.a.count) (hnb : 2 ≤ U.b.count)
+    (A B : ℝ) :
+    ∃ d se dof : ℝ,
+      (Unpaired.ciPrep U : Outcome (Err (RR fl)) (Arith.Prep (RR fl))) =
+        .ok ⟨⟨d⟩, ⟨se⟩, ⟨dof⟩⟩ ∧
+      |dof - clampedDof A B U.a.count U.b.count| ≤
+        max |dofFl U - welchDof A B U.a.count U.b.count|
+          |fl (min (fl U.a.count) (fl U.b.count) - 1) - (min (U.a.count : ℝ) U.b.count - 1)| :=
+  ⟨_, _, _, ciPrep_fl U hna hnb, dofClFl_sub_clampedDof_le U A B⟩
+
+/-- **The computed Welch value is positive** for every state (built by any sequence of
     appends and merges) with counts `≥ 2` that are exactly representable together with their
-    successors, unless both computed standard deviations are zero: `t_value` does not panic.
-    (Seven rounded operations keep the quotient above `3·e^{−14u}`; the two subtractions leave
-    more than `1 − 57u`.) -/
+    successors, unless both computed standard deviations are zero; the value handed on is not
+    below it. (Seven rounded operations keep the quotient above `3·e^{−14u}`; the two subtractions
+    leave more than `1 − 57u`.) -/
 theorem dof_fl_pos (hfl : ∀ x, |fl x - x| ≤ u * |x|) (hu : 0 ≤ u) (hu' : u ≤ 1 / 2048)
     (U : Unpaired (RR fl)) (hna : 2 ≤ U.a.count) (hnb : 2 ≤ U.b.count)
     (ha : fl U.a.count = U.a.count) (hb : fl U.b.count = U.b.count)
@@ -367,7 +427,7 @@ theorem dof_fl_pos (hfl : ∀ x, |fl x - x| ≤ u * |x|) (hu : 0 ≤ u) (hu' : u
     (hsd : 0 < U.a.stdDev.val ∨ 0 < U.b.stdDev.val) :
     ∃ d se dof : ℝ,
       (Unpaired.ciPrep U : Outcome (Err (RR fl)) (Arith.Prep (RR fl))) =
-        .ok ⟨⟨d⟩, ⟨se⟩, ⟨dof⟩⟩ ∧ 0 < dof := by
+        .ok ⟨⟨d⟩, ⟨se⟩, ⟨dof⟩⟩ ∧ 0 < dofFl U ∧ dofFl U ≤ dof ∧ 0 < dof := by
   have hu1 : u < 1 := by linarith
   have hA := s2nFl_nonneg hfl hu1.le U.a ha
   have hB := s2nFl_nonneg hfl hu1.le U.b hb
@@ -377,23 +437,88 @@ theorem dof_fl_pos (hfl : ∀ x, |fl x - x| ≤ u * |x|) (hu : 0 ≤ u) (hu' : u
       linarith
     · have := s2nFl_pos hfl hu1 U.b hb (by omega) h
       linarith
-  exact ⟨_, _, _, ciPrep_fl U hna hnb, dofFl_pos hfl hu hu' U hna hnb ha hb ha1 hb1 hpos⟩
+  have hd := dofFl_pos hfl hu hu' U hna hnb ha hb ha1 hb1 hpos
+  exact ⟨_, _, _, ciPrep_fl U hna hnb, hd, dofFl_le_dofClFl U, dofClFl_pos_of_dofFl_pos U hd⟩
 
-/-- **Both computed standard deviations zero: `t_value` panics, at every `fl`** with `u < 1`
-    whose rounded population limit is not negative. The computed degrees of freedom are
-    `fl (fl (0/0 − 1) − 1) < 0` with the real `0/0 = 0` (C04 `unpaired_both_constant` is the case
-    `fl = id`; in IEEE arithmetic `0/0` is NaN and the code takes the `z` branch — outside the
-    `RR` interpretation, which does not model NaN). -/
+/-- **Both computed standard deviations zero, at every `fl`** with `u < 1`. The computed Welch
+    value is `fl (fl (0/0 − 1) − 1) < 0` with the real `0/0 = 0`, so the value handed on is the
+    computed lower bound `m = fl (min (fl na) (fl nb) − 1)` as soon as `m ≥ 0`; the computed
+    standard error is `0`. For `m > 0` (every `fl` with `u < 1/2`: `unpaired_both_zero_no_panic`)
+    `t_value` does not panic: with an admissible probability the result is the degenerate
+    interval whose bounds are both `fl (d̂ ∓ fl (c·0)) = fl (fl (m̂a − m̂b))`, whatever the oracle
+    answers; an inadmissible probability panics inside `inverse_cdf`. Only for `m ≤ 0` (below
+    the population limit) does `t_value` still panic. (C04 `unpaired_both_constant` is the case
+    `fl = id`, where `m = min(na, nb) − 1 ≥ 1`; in IEEE arithmetic `0/0` is NaN, passes through
+    the bound, and the code takes the `z` branch — outside the `RR` interpretation, which does
+    not model NaN.) -/
 theorem unpaired_both_zero_fl (hfl : ∀ x, |fl x - x| ≤ u * |x|) (hu1 : u < 1)
     (crit : Crit (RR fl)) (U : Unpaired (RR fl)) (conf : Confidence (RR fl))
     (hna : 2 ≤ U.a.count) (hnb : 2 ≤ U.b.count)
-    (ha : U.a.stdDev.val = 0) (hb : U.b.stdDev.val = 0) (hlim : 0 ≤ fl 100000) :
-    U.ciMean crit conf = .panic "t_value" := by
-  obtain ⟨_, hneg⟩ := dofFl_both_zero hfl hu1 U ha hb
-  exact ciMean_fl_tpanic crit U conf hna hnb hneg.le (lt_of_lt_of_le hneg hlim)
+    (ha : U.a.stdDev.val = 0) (hb : U.b.stdDev.val = 0) :
+    dofFl U = fl (fl (-1) - 1) ∧ dofFl U < 0 ∧
+    (Unpaired.ciPrep U : Outcome (Err (RR fl)) (Arith.Prep (RR fl))) =
+      .ok ⟨⟨fl (U.a.mean.val - U.b.mean.val)⟩, ⟨0⟩,
+        ⟨max (dofFl U) (fl (min (fl U.a.count) (fl U.b.count) - 1))⟩⟩ ∧
+    (0 ≤ fl (min (fl U.a.count) (fl U.b.count) - 1) →
+      max (dofFl U) (fl (min (fl U.a.count) (fl U.b.count) - 1)) =
+        fl (min (fl U.a.count) (fl U.b.count) - 1)) ∧
+    (0 < fl (min (fl U.a.count) (fl U.b.count) - 1) → probOk conf.quantile = true →
+      U.ciMean crit conf = intervalOfKind conf
+        (⟨fl (fl (U.a.mean.val - U.b.mean.val))⟩ : RR fl)
+        ⟨fl (fl (U.a.mean.val - U.b.mean.val))⟩) ∧
+    (0 < fl (min (fl U.a.count) (fl U.b.count) - 1) → probOk conf.quantile = false →
+      U.ciMean crit conf = .panic "inverse_cdf") ∧
+    (fl (min (fl U.a.count) (fl U.b.count) - 1) ≤ 0 → 0 < fl 100000 →
+      U.ciMean crit conf = .panic "t_value") := by
+  obtain ⟨he, hneg⟩ := dofFl_both_zero hfl hu1 U ha hb
+  have hse := (seFl_both_zero hfl U ha hb).2
+  refine ⟨he, hneg, ?_, ?_, ?_, ?_, ?_⟩
+  · rw [ciPrep_fl U hna hnb, hse, dofClFl_eq]
+    rfl
+  · intro hm
+    exact max_eq_right (le_trans hneg.le hm)
+  · intro hm hp
+    have hd : 0 < dofClFl U := lt_of_lt_of_le hm (clampFl_le_dofClFl U)
+    rw [ciMean_fl crit U conf hna hnb hd hp, hse, mul_zero, fl_zero hfl, sub_zero, add_zero]
+    rfl
+  · intro hm hp
+    exact ciMean_fl_ppanic crit U conf hna hnb (lt_of_lt_of_le hm (clampFl_le_dofClFl U)) hp
+  · intro hm hlim
+    have hd : dofClFl U ≤ 0 := by
+      rw [dofClFl_eq]; exact max_le hneg.le hm
+    exact ciMean_fl_tpanic crit U conf hna hnb hd (lt_of_le_of_lt hd hlim)
 
-/-- **Positive for two real samples** whose exact `sa²/na + sb²/nb` exceeds the error bound
-    `53u·W` of its computed value. -/
+/-- **Two constant samples do not panic** at any `fl` with `u < 1/2`: both computed standard
+    deviations zero, counts `≥ 2`, an admissible probability — `ci_mean` returns the degenerate
+    interval at `fl (fl (m̂a − m̂b))` (the mean difference rounded by the subtraction and once
+    more by `d̂ ∓ 0`), for every oracle. -/
+theorem unpaired_both_zero_no_panic (hfl : ∀ x, |fl x - x| ≤ u * |x|) (hu : u < 1 / 2)
+    (crit : Crit (RR fl)) (U : Unpaired (RR fl)) (conf : Confidence (RR fl))
+    (hna : 2 ≤ U.a.count) (hnb : 2 ≤ U.b.count)
+    (ha : U.a.stdDev.val = 0) (hb : U.b.stdDev.val = 0) (hp : probOk conf.quantile = true) :
+    U.ciMean crit conf = intervalOfKind conf
+      (⟨fl (fl (U.a.mean.val - U.b.mean.val))⟩ : RR fl)
+      ⟨fl (fl (U.a.mean.val - U.b.mean.val))⟩ :=
+  (unpaired_both_zero_fl hfl (by linarith) crit U conf hna hnb ha hb).2.2.2.2.1
+    (clampFl_pos hfl hu U hna hnb) hp
+
+/-- **Two real samples: at least `min(na, nb) − 1 ≥ 1`**, whatever the samples (constant or
+    not) and whatever the error of `fl` off the natural numbers `≤ na + nb`: the value handed on
+    is `max (dofFl) (min(na, nb) − 1)`. -/
+theorem dof_fl_clamped_samples (as bs : List ℝ) (hna : 2 ≤ as.length) (hnb : 2 ≤ bs.length)
+    (hnat : ∀ m : ℕ, m ≤ as.length + bs.length → fl m = m) :
+    ∃ d se dof : ℝ,
+      (Unpaired.ciPrep (Unpaired.fromLists (as.map inj) (bs.map inj) : Unpaired (RR fl)) :
+        Outcome (Err (RR fl)) (Arith.Prep (RR fl))) = .ok ⟨⟨d⟩, ⟨se⟩, ⟨dof⟩⟩ ∧
+      dof = max (dofFl (ofLists fl as bs)) (min (as.length : ℝ) bs.length - 1) ∧
+      min (as.length : ℝ) bs.length - 1 ≤ dof ∧ 1 ≤ dof :=
+  ⟨_, _, _, ciPrep_fl (ofLists fl as bs) (by rw [ofLists_a_count]; exact hna)
+    (by rw [ofLists_b_count]; exact hnb), (dofClFl_lists as bs hna hnb hnat).1,
+    (dofClFl_lists as bs hna hnb hnat).2.1, (dofClFl_lists as bs hna hnb hnat).2.2⟩
+
+/-- **The computed Welch value is positive for two real samples** whose exact
+    `sa²/na + sb²/nb` exceeds the error bound `53u·W` of its computed value (the value handed on
+    is not below it, and `≥ 1` in any case: `dof_fl_clamped_samples`). -/
 theorem dof_fl_pos_samples (hfl : ∀ x, |fl x - x| ≤ u * |x|) (hu : 0 ≤ u) (as bs : List ℝ)
     (hna : 2 ≤ as.length) (hnb : 2 ≤ bs.length)
     (hs : ((as.length : ℝ) + bs.length) * u ≤ 1 / 1024)
@@ -401,14 +526,40 @@ theorem dof_fl_pos_samples (hfl : ∀ x, |fl x - x| ≤ u * |x|) (hu : 0 ≤ u) 
     (hpos : 53 * u * (sqTerm as + sqTerm bs) < welchA as + welchA bs) :
     ∃ d se dof : ℝ,
       (Unpaired.ciPrep (Unpaired.fromLists (as.map inj) (bs.map inj) : Unpaired (RR fl)) :
-        Outcome (Err (RR fl)) (Arith.Prep (RR fl))) = .ok ⟨⟨d⟩, ⟨se⟩, ⟨dof⟩⟩ ∧ 0 < dof :=
+        Outcome (Err (RR fl)) (Arith.Prep (RR fl))) = .ok ⟨⟨d⟩, ⟨se⟩, ⟨dof⟩⟩ ∧
+      0 < dofFl (ofLists fl as bs) ∧ dofFl (ofLists fl as bs) ≤ dof ∧ 0 < dof := by
+  have hd := dofFl_pos_lists hfl hu as bs hna hnb hs hnat hpos
+  exact ⟨_, _, _, ciPrep_fl (ofLists fl as bs) (by rw [ofLists_a_count]; exact hna)
+    (by rw [ofLists_b_count]; exact hnb), hd, dofFl_le_dofClFl _, dofClFl_pos_of_dofFl_pos _ hd⟩
+
+/-- **Error of the value handed on against the exact bounded value, two real samples.** With
+    `fl` exact on the natural numbers `≤ na + nb` the computed lower bound is the exact
+    `min(na, nb) − 1`, and since `max` is 1-Lipschitz the value handed on is at least as close to
+    `clampedDof = max ν (min(na, nb) − 1)` (what the model hands on at exact arithmetic, C04) as
+    the computed Welch value `dofFl` is to `ν`; when not both samples are constant,
+    `clampedDof = ν`. No hypothesis on the error of `fl` elsewhere. -/
+theorem dof_error_clamped (as bs : List ℝ) (hna : 2 ≤ as.length) (hnb : 2 ≤ bs.length)
+    (hnat : ∀ m : ℕ, m ≤ as.length + bs.length → fl m = m) :
+    ∃ d se dof : ℝ,
+      (Unpaired.ciPrep (Unpaired.fromLists (as.map inj) (bs.map inj) : Unpaired (RR fl)) :
+        Outcome (Err (RR fl)) (Arith.Prep (RR fl))) = .ok ⟨⟨d⟩, ⟨se⟩, ⟨dof⟩⟩ ∧
+      |dof - clampedDof (welchA as) (welchA bs) as.length bs.length| ≤
+        |dofFl (ofLists fl as bs) - welchNu as bs| ∧
+      (0 < welchA as + welchA bs →
+        clampedDof (welchA as) (welchA bs) as.length bs.length = welchNu as bs ∧
+        |dof - welchNu as bs| ≤ |dofFl (ofLists fl as bs) - welchNu as bs|) :=
   ⟨_, _, _, ciPrep_fl (ofLists fl as bs) (by rw [ofLists_a_count]; exact hna)
-    (by rw [ofLists_b_count]; exact hnb), dofFl_pos_lists hfl hu as bs hna hnb hs hnat hpos⟩
+    (by rw [ofLists_b_count]; exact hnb), dofClFl_error_lists as bs hna hnb hnat,
+    fun hAB => ⟨clampedDof_eq _ _ _ _ (by exact_mod_cast hna) (by exact_mod_cast hnb)
+      (welchA_nonneg as (by omega)) (welchA_nonneg bs (by omega)) hAB,
+      dofClFl_error_lists_nu as bs hna hnb hnat hAB⟩⟩
 
 /-- **Error of the computed degrees of freedom.** Both sample variances positive, `κ` a bound
-    on the conditioning `Σx²/((n − 1)·s²)` of both samples with `51·u·κ ≤ 1/64`: the degrees of
-    freedom `dof` handed to `interval_bounds` at `RR fl` satisfy
-    `|dof − ν| ≤ (255·κ + 19)·u·(ν + 2)` and `dof > 0`.
+    on the conditioning `Σx²/((n − 1)·s²)` of both samples with `51·u·κ ≤ 1/64`: the computed
+    Welch value `dofFl` satisfies `|dofFl − ν| ≤ (255·κ + 19)·u·(ν + 2)` and `dofFl > 0`; the
+    degrees of freedom `dof = max dofFl (min(na, nb) − 1)` handed to `interval_bounds` at `RR fl`
+    satisfy the same bound `|dof − ν| ≤ (255·κ + 19)·u·(ν + 2)` (the exact `ν ≥ min(na, nb) − 1`
+    and `max` is 1-Lipschitz) and `dof ≥ 1`.
     (Each computed `s²/n` has relative error `ε = 51uκ`; the quotient `(A+B)²/(A²/(na+1) +
     B²/(nb+1))` is homogeneous of degree `0` with non-negative terms, so relative errors pass
     through with factor `4`, plus seven rounded operations and the two subtractions:
@@ -425,8 +576,11 @@ theorem dof_error (hfl : ∀ x, |fl x - x| ≤ u * |x|) (hu : 0 ≤ u) (as bs : 
     ∃ d se dof : ℝ,
       (Unpaired.ciPrep (Unpaired.fromLists (as.map inj) (bs.map inj) : Unpaired (RR fl)) :
         Outcome (Err (RR fl)) (Arith.Prep (RR fl))) = .ok ⟨⟨d⟩, ⟨se⟩, ⟨dof⟩⟩ ∧
+      dof = max (dofFl (ofLists fl as bs)) (min (as.length : ℝ) bs.length - 1) ∧
+      |dofFl (ofLists fl as bs) - welchNu as bs| ≤ (255 * κ + 19) * u * (welchNu as bs + 2) ∧
+      0 < dofFl (ofLists fl as bs) ∧
       |dof - welchNu as bs| ≤ (255 * κ + 19) * u * (welchNu as bs + 2) ∧
-      0 < dof := by
+      1 ≤ dof := by
   obtain ⟨hsa, hsb, hnata, hnatb⟩ := split_hyps hu as bs hs hnat
   have hNa : (2 : ℝ) ≤ as.length := by exact_mod_cast hna
   have hκ0 : 0 ≤ κ := by
@@ -438,18 +592,22 @@ theorem dof_error (hfl : ∀ x, |fl x - x| ≤ u * |x|) (hu : 0 ≤ u) (as bs : 
   have hε0 : 0 ≤ 51 * u * κ := by positivity
   have hεa := s2n_rel hfl hu as hna hsa hnata (κ := κ) hκa
   have hεb := s2n_rel hfl hu bs hnb hsb hnatb (κ := κ) hκb
-  obtain ⟨h1, h2⟩ := dof_error_rel hfl hu as bs hna hnb hs hnat hε0 hκ
-    (welchA_pos as (by omega) hva) (welchA_pos bs (by omega) hvb) hεa hεb
-  refine ⟨_, _, _, ciPrep_fl (ofLists fl as bs) (by rw [ofLists_a_count]; exact hna)
-    (by rw [ofLists_b_count]; exact hnb), ?_, h2⟩
+  have hA := welchA_pos as (by omega) hva
+  have hB := welchA_pos bs (by omega) hvb
+  obtain ⟨h1, h2⟩ := dof_error_rel hfl hu as bs hna hnb hs hnat hε0 hκ hA hB hεa hεb
   have e : (255 * κ + 19) * u = 5 * (51 * u * κ) + 19 * u := by ring
-  rw [e]
-  exact h1
+  rw [← e] at h1
+  obtain ⟨c1, _, c3⟩ := dofClFl_lists (fl := fl) as bs hna hnb hnat
+  exact ⟨_, _, _, ciPrep_fl (ofLists fl as bs) (by rw [ofLists_a_count]; exact hna)
+    (by rw [ofLists_b_count]; exact hnb), c1, h1, h2,
+    le_trans (dofClFl_error_lists_nu as bs hna hnb hnat (add_pos hA hB)) h1, c3⟩
 
 /-- **Error of the computed degrees of freedom, absolute form** (one of the two exact variances
     may be zero). With `η ≥ 51u·W/(sa²/na + sb²/nb)` — the error bound of the two computed variance
     terms relative to their exact sum —, `r = (na + nb + 2)/(min(na, nb) + 1)` and
-    `ρ = r·(2η + η²) ≤ 1/64`:  `|dof − ν| ≤ ((5/4)·(2η + ρ) + 19u)·(ν + 2)` and `dof > 0`.
+    `ρ = r·(2η + η²) ≤ 1/64`:  `|dofFl − ν| ≤ ((5/4)·(2η + ρ) + 19u)·(ν + 2)` and `dofFl > 0` for
+    the computed Welch value, and the same bound and `dof ≥ 1` for the value
+    `dof = max dofFl (min(na, nb) − 1)` handed on.
     (The numerator `(A+B)²` moves by the factor `(1 ± η)²`; the denominator `A²/(na+1) + B²/(nb+1)`
     is at least `(A+B)²/(na+nb+2)`, so its relative error is at most `ρ`: unbalanced sizes
     amplify, and this is real — a perturbation `η·B` of a vanishing `A` changes the denominator
@@ -465,13 +623,20 @@ theorem dof_error_abs (hfl : ∀ x, |fl x - x| ≤ u * |x|) (hu : 0 ≤ u) (as b
     ∃ d se dof : ℝ,
       (Unpaired.ciPrep (Unpaired.fromLists (as.map inj) (bs.map inj) : Unpaired (RR fl)) :
         Outcome (Err (RR fl)) (Arith.Prep (RR fl))) = .ok ⟨⟨d⟩, ⟨se⟩, ⟨dof⟩⟩ ∧
+      dof = max (dofFl (ofLists fl as bs)) (min (as.length : ℝ) bs.length - 1) ∧
+      |dofFl (ofLists fl as bs) - welchNu as bs| ≤
+        (5 / 4 * (2 * η + ((as.length : ℝ) + bs.length + 2) / (min (as.length : ℝ) bs.length + 1)
+          * (2 * η + η ^ 2)) + 19 * u) * (welchNu as bs + 2) ∧
+      0 < dofFl (ofLists fl as bs) ∧
       |dof - welchNu as bs| ≤
         (5 / 4 * (2 * η + ((as.length : ℝ) + bs.length + 2) / (min (as.length : ℝ) bs.length + 1)
           * (2 * η + η ^ 2)) + 19 * u) * (welchNu as bs + 2) ∧
-      0 < dof := by
+      1 ≤ dof := by
   obtain ⟨h1, h2⟩ := UnpairedRound.dof_error_abs hfl hu as bs hna hnb hs hnat hη0 hAB hη hρ
+  obtain ⟨c1, _, c3⟩ := dofClFl_lists (fl := fl) as bs hna hnb hnat
   exact ⟨_, _, _, ciPrep_fl (ofLists fl as bs) (by rw [ofLists_a_count]; exact hna)
-    (by rw [ofLists_b_count]; exact hnb), h1, h2⟩
+    (by rw [ofLists_b_count]; exact hnb), c1, h1, h2,
+    le_trans (dofClFl_error_lists_nu as bs hna hnb hnat hAB) h1, c3⟩
 
 /-- **Exact degrees of freedom, upper bound**: `ν ≤ na + nb` for all samples (Cauchy–Schwarz;
     `ν + 2 ≤ (na + 1) + (nb + 1)`), so the factor `ν + 2` in `dof_error` is at most `na + nb + 2`.
@@ -572,17 +737,39 @@ example (fl : ℝ → ℝ) : probOk (Confidence.upper (⟨0.95⟩ : RR fl)).quan
   constructor <;> norm_num
 
 /-- `dof_fl_pos`: a state at exact arithmetic with counts `3`, `2`, the first computed standard
-    deviation positive; `unpaired_both_zero_fl`: two constant samples -/
+    deviation positive; `unpaired_both_zero_fl`: two constant samples of sizes `2`, `2` — the
+    computed lower bound `fl (min (fl 2) (fl 2) − 1) = 1` is positive (the non-panic branch) -/
 example : 0 < (Arith.fromList (([1, 2, 4] : List ℝ).map inj) : Arith Rex).stdDev.val ∧
     (Arith.fromList (([3, 3] : List ℝ).map inj) : Arith Rex).stdDev.val = 0 ∧
-    (0 : ℝ) ≤ id 100000 := by
+    (Arith.fromList (([5, 5] : List ℝ).map inj) : Arith Rex).stdDev.val = 0 ∧
+    (0 : ℝ) < id (min (id (((Arith.fromList (([3, 3] : List ℝ).map inj) : Arith Rex).count : ℕ) : ℝ))
+      (id (((Arith.fromList (([5, 5] : List ℝ).map inj) : Arith Rex).count : ℕ) : ℝ)) - 1) ∧
+    (0 : ℝ) < id 100000 := by
   have h1 : 0 < svar [1, 2, 4] := by
     simp [svar, sdev2, smean]; norm_num
   have h2 : svar [3, 3] = 0 := by
     simp [svar, sdev2, smean]
-  refine ⟨?_, ?_, by norm_num⟩
+  have h3 : svar [5, 5] = 0 := by
+    simp [svar, sdev2, smean]
+  refine ⟨?_, ?_, ?_, ?_, by norm_num⟩
   · rw [Arith.fromList_stdDev _ (by simp)]
     exact Real.sqrt_pos.mpr h1
   · rw [Arith.fromList_stdDev _ (by simp), ssd, h2, Real.sqrt_zero]
+  · rw [Arith.fromList_stdDev _ (by simp), ssd, h3, Real.sqrt_zero]
+  · simp [Arith.fromList_count]
+
+/-- `dof_fl_clamped`: exactness on the counts and on `min(na, nb) − 1` holds at `fl = id`;
+    `dof_fl_pos_always`, `unpaired_both_zero_no_panic`: `u = 2⁻²⁰ < 1/2` (the rounding function
+    of the example above) -/
+example : id ((3 : ℕ) : ℝ) = ((3 : ℕ) : ℝ) ∧
+    id (min ((3 : ℕ) : ℝ) ((2 : ℕ) : ℝ) - 1) = min ((3 : ℕ) : ℝ) ((2 : ℕ) : ℝ) - 1 ∧
+    (1 / 1048576 : ℝ) < 1 / 2 := ⟨rfl, rfl, by norm_num⟩
+
+/-- the clamp is active in the both-constant case and inactive otherwise, at exact arithmetic:
+    `clampedDof 0 0 2 2 = 1` while `welchDof 0 0 2 2 = −2` -/
+example : clampedDof 0 0 2 2 = 1 ∧ welchDof 0 0 2 2 = -2 := by
+  refine ⟨?_, welchDof_zero 2 2⟩
+  rw [clampedDof_zero 2 2 (le_refl _) (le_refl _)]
+  norm_num
 
 end StatsCI.C04R
